@@ -1,7 +1,7 @@
 """C04 - solvePDE solves exactly the system its term list and BCs define, in place.
 
 Programs (term lists), not inputs, are the quantifier: all term lists up to length 3
-(thorough: 4) over an alphabet of 12 term kinds (matrix / vector / (matrix, vector) pairs,
+(thorough: 4) over an alphabet of 13 term kinds (matrix / vector / (matrix, vector) pairs,
 negated, scaled, plain tuple, SignedTuple) in every order, on 9 classes x 2 shapes x 3 BC
 set-ups.  Oracle: independently accumulated dense system; (i) returns its argument,
 (ii) residual on interior and boundary rows, (iii) == solveMatrixPDE of the hand-assembled
@@ -22,12 +22,12 @@ from ..opkit import Grid, dense
 
 ID = "C04"
 LEVEL = "model_checking"
-RULE = ("programs = all ordered term lists of length <= L over the 12-kind alphabet (plus one mandatory well-conditioned "
+RULE = ("programs = all ordered term lists of length <= L over the 13-kind alphabet (plus one mandatory well-conditioned "
         "base term) x class x shape x BC set-up; every program is executed with a spy solver; one program = one distinct "
         "non-trivial case; ghost-row and superposition parts run on the full basis")
 ASSUMPTIONS = ["programs whose assembled matrix has cond*eps > 1e-6 (e.g. negative diffusion cancelling the base term) are "
                "counted as preconditions_failed", "tolerance 64*eps*cond(M)*max|phi| for solution comparisons"]
-ALPHABET = ["Md", "nMd", "2Mc", "Mu", "Ls2", "v", "nv", "tvd", "pair", "tuple", "ST", "nST"]
+ALPHABET = ["Md", "nMd", "2Mc", "Mu", "Ls2", "v", "nv", "tvd", "pair", "tuple", "ST", "nST", "pST"]
 SHAPES = {1: [(3,), (1,)], 2: [(2, 3), (1, 2)], 3: [(2, 1, 2), (2, 2, 2)]}
 
 
@@ -114,6 +114,8 @@ class Env:
             return ST((pf.convectionUpwindTerm(self.u), pf.constantSourceTerm(self.gamma)))
         if kind == "nST":
             return -ST((pf.diffusionTerm(self.D), pf.constantSourceTerm(self.gamma)))
+        if kind == "pST":
+            return +ST((pf.linearSourceTerm(self.beta2), -pf.constantSourceTerm(self.gamma)))
         raise KeyError(kind)
 
 
@@ -212,6 +214,11 @@ def _programs_part(g, case, res):
                 "row %s of the assembled system has residual %.3g (scale %.3g, cond %.3g)" % (list(g.cell_of_flat(j)), r[j], sc[j], kappa))
         # (iii) solveMatrixPDE of the hand-assembled system
         ref = pf.solveMatrixPDE(g.mesh, sp.csr_array(Mref), rref)
+        spy2 = Spy()
+        ref2 = pf.solveMatrixPDE(g.mesh, sp.csr_array(Mref), rref, externalsolver=spy2)
+        if len(spy2.calls) != 1 or not np.array_equal(spy2.calls[0][0], Mref) or not np.array_equal(spy2.calls[0][1], rref) \
+                or not np.array_equal(np.asarray(ref2._value).ravel(), np.asarray(spy2.answer)):
+            add("solveMatrixPDE_external_solver", "solveMatrixPDE does not hand the given system to the external solver / does not return its answer")
         if not np.all(np.abs(np.asarray(ref.value) - np.asarray(phi.value)) <= 64 * EPS * kappa * scale):
             add("differs_from_solveMatrixPDE", "interior differs from solveMatrixPDE of the hand-assembled system by %.3g"
                 % float(np.max(np.abs(np.asarray(ref.value) - np.asarray(phi.value)))))
